@@ -4,11 +4,11 @@ package main
 // harness/model.go). Every value and content byte stays symbolic.
 
 type Sh struct {
-	Typ, Mask, Order, Slen, NUser, NList, Will, Cred, Qos, Form, Nz, Fld, Flen, Big int
+	Typ, Mask, Order, Slen, NUser, NList, Will, Cred, Qos, Form, Nz, Fld, Flen, Big, Proto int
 }
 
 func (s Sh) Args() []int {
-	return []int{s.Typ, s.Mask, s.Order, s.Slen, s.NUser, s.NList, s.Will, s.Cred, s.Qos, s.Form, s.Nz, s.Fld, s.Flen, s.Big}
+	return []int{s.Typ, s.Mask, s.Order, s.Slen, s.NUser, s.NList, s.Will, s.Cred, s.Qos, s.Form, s.Nz, s.Fld, s.Flen, s.Big, s.Proto}
 }
 
 var typeNames = []string{"Undefined", "Connect", "ConnAck", "Publish", "PubAck", "PubRec", "PubRel", "PubComp",
@@ -61,6 +61,38 @@ func maxStrFields(typ int) int {
 }
 
 var boundaryLens = []int{127, 128, 16383, 16384, 65534, 65535}
+
+// bigFieldShapes: every string / binary field of the type in turn at 65 534
+// and 65 535 bytes (thorough: also around 32 768 and 16 384), all other
+// fields present with concrete values.
+func bigFieldShapes(typ int, thorough bool) []Sh {
+	if typ == 12 || typ == 13 {
+		return nil
+	}
+	lens := []int{65534, 65535}
+	if thorough {
+		lens = []int{255, 256, 16383, 16384, 32767, 32768, 65533, 65534, 65535}
+	}
+	rich := Sh{Typ: typ, Slen: 1, Mask: 1<<uint(nProps(typ)) - 1, NUser: 1, Nz: 3}
+	if typ == 1 {
+		rich.Will, rich.Cred = 1|(1<<6-1)<<1, 3
+	}
+	if hasList(typ) {
+		rich.NList = 2
+	}
+	if typ == 3 {
+		rich.NList = 1
+	}
+	var out []Sh
+	for f := 1; f <= maxStrFields(typ); f++ {
+		for _, l := range lens {
+			s := rich
+			s.Fld, s.Flen = f, l
+			out = append(out, s)
+		}
+	}
+	return out
+}
 
 // apiShapes: packets constructible through the public API, for C01, C02,
 // C10, C11, C13. wellFormed restricts to MQTT-well-formed packets (C02).
@@ -155,6 +187,17 @@ func apiShapes(typ int, thorough, wellFormed bool) []Sh {
 			s := base
 			s.Will = 1 | (1<<6-1)<<1
 			out = append(out, s)
+		}
+		// protocol name and version set through the API (C01 only: C02 is
+		// about packets that keep the defaults)
+		if !wellFormed {
+			for _, pl := range []int{0, 1, 4, 6} {
+				s := base
+				s.Proto = pl + 1
+				out = append(out, s)
+				s.Will, s.Cred, s.Nz = 1|(1<<6-1)<<1, 3, 1
+				out = append(out, s)
+			}
 		}
 	case 3:
 		for q := 0; q <= 2; q++ {
@@ -298,6 +341,15 @@ func wireShapes(typ int, thorough bool) []Sh {
 		s := base
 		s.Will, s.NUser, s.Order = 1|(1<<6-1)<<1, 1, 1
 		out = append(out, s)
+		// user name / password flag set with an empty value (legal in v5.0;
+		// the library's own encoder never produces it)
+		for _, c := range []int{1, 2, 3} {
+			s := base
+			s.Slen, s.Cred, s.Form = 0, c, 1
+			out = append(out, s)
+			s.Will = 1
+			out = append(out, s)
+		}
 	case 3:
 		for q := 0; q <= 2; q++ {
 			s := base
